@@ -149,7 +149,9 @@ class Ctx:
                         self.inconclusive.append("case %s of %s exceeded the watchdog twice" % (cur, sub))
                     elif again is not None:
                         self.violation(again[0], again[1], replay)
-                elif rc in (97, 98, 99) or re.search(r"/verif/harness/[\w.]+:\d+:\d+: runtime error", se or ""):
+                elif rc in (97, 98, 99) or re.search(r"/verif/harness/[\w.]+:\d+:\d+: runtime error", se or "") or \
+                        (rc == 86 and "AddressSanitizer" in (se or "") and "/harness/" in (se or "") and not re.search(r" in \w+ /\S*/(mtbl|libmy|src)/", se or "")):
+                    # a sanitizer report whose stacks never enter the library is a defect of the harness itself
                     self.inconclusive.append("harness failure rc=%d in %s case %s: %s" % (rc, sub, cur, se[-300:]))
                 else:
                     self.violation(crash_signature(rc, se), "harness %s %s died (rc=%s) in case %s: %s" %
